@@ -42,7 +42,8 @@ TREES = (
     "((a:0.1,b:0.2):0.05,c:0.3,d:0.15);",
     "((a:0.1,b:0.2):0.05,(c:0.3,d:0.15):0.07,e:0.2);",
 )
-MODELS = ("HKY85", "HKY85", "F81", "GTR", "HKY85+G", "TN93", "GN")
+MODELS = ("HKY85", "HKY85", "F81", "GTR", "HKY85+G", "TN93", "GN", "HKY85+mp", "HKY85@2loci", "GTR@2loci")
+LOCI = ["l0", "l1"]
 
 
 # ---------------------------------------------------------------------------
@@ -83,7 +84,7 @@ def _gen_lf_ops(rng, n_ops, depth=0):
         r = rng.random()
         if r < 0.30:
             ops.append({"op": "rule", "par": rng.randint(0, 7), "how": rng.choice(
-                ["init", "init", "const", "bounds", "indep", "edges", "edges", "edges-const", "free"]),
+                ["init", "init", "const", "bounds", "indep", "edges", "edges", "edges-const", "free", "locus"]),
                 "frac": _frac(rng), "edges": [rng.randint(0, 7) for _ in range(rng.randint(1, 3))]})
         elif r < 0.34:
             # move an edge into an existing scope of a parameter without introducing a new value
@@ -175,6 +176,10 @@ def get_sm(name):
     if name not in _MODEL_CACHE:
         if name == "HKY85+G":
             _MODEL_CACHE[name] = get_model("HKY85", ordered_param="rate", distribution="gamma")
+        elif name == "HKY85+mp":
+            _MODEL_CACHE[name] = get_model("HKY85", optimise_motif_probs=True)
+        elif name.endswith("@2loci"):
+            _MODEL_CACHE[name] = get_model(name.split("@")[0])
         else:
             _MODEL_CACHE[name] = get_model(name)
     return _MODEL_CACHE[name]
@@ -215,6 +220,8 @@ def make_aln(plan, which=0):
 def new_lf(plan, aln, tree):
     sm = get_sm(plan["model"])
     kw = {"bins": 3} if plan["model"] == "HKY85+G" else {}
+    if plan["model"].endswith("@2loci"):
+        kw["loci"] = list(LOCI)  # aln is then a list, one alignment per locus
     lf = sm.make_likelihood_function(tree, **kw)
     lf.set_alignment(aln)
     return lf
@@ -238,6 +245,8 @@ class Ctx:
     def __init__(self, plan):
         self.plan = plan
         self.aln, self.tree = make_aln(plan, 0)
+        if plan["model"].endswith("@2loci"):
+            self.aln = [self.aln, make_aln(plan, 10)[0]]
         self.alns = {0: self.aln}
         self.cur_aln = 0
         self.edges = [e.name for e in self.tree.get_edge_vector(include_root=False)]
@@ -246,6 +255,8 @@ class Ctx:
     def aln_n(self, which):
         if which not in self.alns:
             self.alns[which], _ = make_aln(self.plan, which)
+            if self.plan["model"].endswith("@2loci"):
+                self.alns[which] = [self.alns[which], make_aln(self.plan, which + 10)[0]]
         return self.alns[which]
 
 
@@ -261,6 +272,14 @@ def apply_lf_op(ctx: Ctx, op, res: RunResult, in_batch=False):
         val = _frac_value(op["frac"])
         how = op["how"]
         edges = sorted({ctx.edges[e % len(ctx.edges)] for e in op["edges"]})
+        if how == "locus":
+            if not ctx.plan["model"].endswith("@2loci"):
+                how = "init"
+            elif op["frac"] < 0.3:
+                lf.set_param_rule(par, loci=list(LOCI), is_independent=True, init=val)
+            else:
+                lf.set_param_rule(par, locus=LOCI[op["par"] % 2], is_constant=op["frac"] > 0.8, **(
+                    {"value": val} if op["frac"] > 0.8 else {"init": val}))
         if how == "init":
             lf.set_param_rule(par, init=val)
         elif how == "const":
@@ -291,6 +310,9 @@ def apply_lf_op(ctx: Ctx, op, res: RunResult, in_batch=False):
         mp = {b: v / tot for b, v in zip("ACGT", op["vals"])}
         if ctx.plan["model"].startswith("MG94"):
             return "skip"
+        if ctx.plan["model"].endswith("@2loci") and op["vals"][0] < 0.5:
+            lf.set_motif_probs(mp, locus=LOCI[op["vals"][1] < 0.5])
+            return "mprobs"
         lf.set_motif_probs(mp)
         return "mprobs"
     if name == "regroup":
@@ -734,7 +756,7 @@ EVIDENCE = {
         "steps. lf level (1/3): 3-9 / 3-24 ops of set_param_rule (scopes, constant, bounds), set_motif_probs, "
         "set_alignment, updates_postponed batches (some left by an exception), apply_param_rules with a bad rule, "
         "rejected single calls, optimise cut off at n evaluations (local/global/both, seeded), calculator round-trips; "
-        "models F81/HKY85/TN93/GTR/GN/HKY85+Gamma (MG94HKY in thorough), 3-5 taxa. Non-trivial = more than one step; "
+        "models F81/HKY85/TN93/GTR/GN/HKY85+Gamma, HKY85 with free motif probabilities, HKY85 and GTR over two loci (locus-scoped rules and motif probabilities) (MG94HKY in thorough), 3-5 taxa. Non-trivial = more than one step; "
         "distinct = distinct (level, model, step-kind trace with raised marks) digests"
     ),
     "real": ["cogent3.recalculation (Calculator, ParameterController, definitions), evolve.parameter_controller, "
